@@ -1,5 +1,6 @@
 """C07 - CCSDS AR4JA and C2 parity-check matrices conform to CCSDS 131.0-B (tables and placement)."""
 import json
+import re
 import os
 
 from ..extract import AnalysisError, VERIF
@@ -116,7 +117,8 @@ def run(ck, F, tier):
     nsites_total = 0
     for r in rates:
         selfv = ("struct", "AR4JACode", {"rate": ("variant", r), "k": var("self.k")})
-        tr = Tracer(F, r"sparse::SparseMatrix::\w+", mode="int")
+        tr = Tracer(F, r"sparse::SparseMatrix::\w+", mode="int", inline=lambda p: F.private_helper(p, AR + "::", keep=re.escape(AR) + r"::(pi|m)"))
+        tr.unroll_literals = True
         env = {}
         tr.bind(hb.params[0], selfv, env)
         try:
